@@ -1123,6 +1123,11 @@ func (g *Gen) Program(minStmts, maxStmts int) *ast.Root {
 		}
 		return root
 	}
+	if !g.O.NoDeep && g.chance(1, 30, "deepprogram") {
+		g.feat("deep-program")
+		root.Stmts = g.DeepStatements()
+		return root
+	}
 	switch g.intn(6, "nsmode") {
 	case 0:
 		// semicolon-style namespaces
